@@ -17,7 +17,7 @@ from harness.jsonsafe import rat, ratx
 RULE = ('cases = (operation x shape 1..4 x real/complex x layout class x plain-number entries x number of factors); non-trivial = matrix of '
         'dimension >= 2 or entries on more than one ensemble')
 ASSUMPTIONS = ['matrices are built with prescribed singular values in [0.5, 2] and eigenvalue gaps >= 0.25 (well-conditioned, non-degenerate)',
-               'all entries that carry a chain carry it on the same configuration list, an entry has all replicas of an ensemble or none',
+               'all entries that carry a chain carry it on the same configuration list; an entry may lack whole replicas of an ensemble (its fluctuations are then projected with the up-weight ObsCore!DeriveChains states, which C01 checks on its own)',
                'identities compared at 1e-7 relative plus 1e-8 of the natural scale; jackknife products within 4*scale*dmax^2/(N-1)']
 
 
@@ -46,6 +46,9 @@ def entry_obs(rng, pool, v, rel=0.03):
     chosen = [groups[i] for i in sorted(rng.choice(len(groups), size=k, replace=False).tolist())]
     o = None
     for names in chosen:
+        if len(names) > 1 and rng.random() < 0.4:
+            # the entry lacks whole replicas of this ensemble
+            names = [names[i] for i in sorted(rng.choice(len(names), size=int(rng.integers(1, len(names))), replace=False).tolist())]
         samples = [v / len(chosen) + rel * (abs(v) + 0.2) * rng.normal(size=len(pool[n])) for n in names]
         p = pe.Obs(samples, names, idl=[pool[n] for n in names])
         o = p if o is None else o + p
@@ -57,11 +60,20 @@ def flat(o, pool):
     if isinstance(o, (int, float, np.integer, np.floating)):
         return {'v': rat(float(o)), 'd': ['0'] * sum(len(pool[n]) for n in sorted(pool))}
     d = []
+    # an entry that lacks whole replicas of an ensemble enters every result with its fluctuations up-weighted by
+    # (ensemble size / size of the replicas it has) - ObsCore!DeriveChains, checked on its own by C01; the flat slot carries them so
+    size = {}
+    for n in pool:
+        e = n.split('|')[0]
+        size.setdefault(e, [0, 0])
+        size[e][0] += len(pool[n])
+        size[e][1] += len(pool[n]) if n in o.idl else 0
     for n in sorted(pool):
         if n in o.idl:
             if list(o.idl[n]) != list(pool[n]):
                 return {'v': 'nan', 'd': []}
-            d += [ratx(float(x)) for x in o.deltas[n]]
+            tot, own = size[n.split('|')[0]]
+            d += [ratx(float(x) * tot / own) for x in o.deltas[n]]
         else:
             d += ['0'] * len(pool[n])
     extra = [n for n in o.names if n not in pool and n != '###dummy_covobs###']
